@@ -218,6 +218,15 @@ func (p *provProfile) disruptOp() bool {
 			}
 		}
 		p.note("scale down %s to %d", rs, p.d.rsDesired[rs])
+		if ch.Pick("dis.tighten", 2) == 1 {
+			// an operator notices the churn and tightens the budgets a little later (to a small non-zero count)
+			pool := p.pools[ch.Pick("prov.pool", len(p.pools))]
+			d := time.Duration(10+ch.Pick("dis.tightenafter", 80)) * time.Second
+			s.AddTimer(actorUser, d, "budgets tightened", false, func() {
+				st.Mutate(gvkNodePool, types.NamespacedName{Name: pool}, func(o client.Object) { o.(*v1.NodePool).Spec.Disruption.Budgets = []v1.Budget{{Nodes: "1"}} })
+				p.note("budgets of %s = 1 (tightened)", pool)
+			})
+		}
 	case 2: // PDB appears or its budget changes
 		l := st.List(gvkPDB)
 		if len(l) == 0 || ch.Pick("dis.newpdb", 3) == 0 {
